@@ -1,4 +1,5 @@
 import Model.Msm
+import Proofs.C16Fit
 import Mathlib.Analysis.SpecialFunctions.Log.Basic
 import Mathlib.Analysis.Complex.Basic
 import Mathlib.Data.Matrix.Mul
@@ -38,19 +39,19 @@ theorem filterMap_fst_eq_snd (vals : List Cx) (l : List (Nat × Cx))
 
 /-- the pairs (index, value) sorted by the code's key -/
 def sortedPairs (vals : List Cx) : List (Nat × Cx) :=
-  ((List.range vals.length).zip vals).mergeSort (fun a b => decide (-a.2.re ≤ -b.2.re))
+  stableSort (fun a b => decide (-a.2.re ≤ -b.2.re)) ((List.range vals.length).zip vals)
 
 theorem sortedPairs_perm (vals : List Cx) :
-    (sortedPairs vals).Perm ((List.range vals.length).zip vals) := List.mergeSort_perm _ _
+    (sortedPairs vals).Perm ((List.range vals.length).zip vals) := stableSort_perm _ _
 
 theorem sortedPairs_pairwise (vals : List Cx) :
     (sortedPairs vals).Pairwise (fun a b => b.2.re ≤ a.2.re) := by
-  have := List.pairwise_mergeSort (le := fun (a b : Nat × Cx) => decide (-a.2.re ≤ -b.2.re))
+  have := stableSort_pairwise (fun (a b : Nat × Cx) => decide (-a.2.re ≤ -b.2.re))
     (by intro a b c h1 h2
         simp only [decide_eq_true_eq] at h1 h2 ⊢
         exact le_trans h1 h2)
     (by intro a b
-        simp only [Bool.or_eq_true, decide_eq_true_eq]
+        simp only [decide_eq_true_eq]
         exact le_total _ _)
     ((List.range vals.length).zip vals)
   exact this.imp (by intro a b h; simp only [decide_eq_true_eq] at h; linarith)
@@ -330,5 +331,54 @@ theorem ensembleLoop_spec {R : Type} [Semiring R] {n : Nat} (T : Matrix (Fin n) 
       | succ t =>
         simp only [List.getElem?_cons_succ]
         rw [h3 t (by omega), restrict_rmatvec, Matrix.vecMul_vecMul, ← pow_succ']
+
+/-! ### uniqueness of the stationary vector (entrywise positive matrices) -/
+
+theorem fixed_sum_zero_eq_zero {n : Nat} (T : Matrix (Fin n) (Fin n) ℝ) (hpos : ∀ i j, 0 < T i j)
+    (hrow : ∀ i, ∑ j, T i j = 1) (u : Fin n → ℝ) (hu : Matrix.vecMul u T = u)
+    (hs : ∑ i, u i = 0) : u = 0 := by
+  by_contra hne
+  obtain ⟨ip, hip⟩ : ∃ i, 0 < u i := by
+    by_contra hc
+    push Not at hc
+    have := (Finset.sum_eq_zero_iff_of_nonpos (fun i _ => hc i)).mp hs
+    exact hne (funext fun i => this i (Finset.mem_univ i))
+  obtain ⟨im, him⟩ : ∃ i, u i < 0 := by
+    by_contra hc
+    push Not at hc
+    have := (Finset.sum_eq_zero_iff_of_nonneg (fun i _ => hc i)).mp hs
+    exact hne (funext fun i => this i (Finset.mem_univ i))
+  have strict : ∀ j, |u j| < ∑ i, |u i| * T i j := by
+    intro j
+    have e : u j = ∑ i, u i * T i j := by
+      have := congrFun hu j
+      simp only [Matrix.vecMul, dotProduct] at this
+      exact this.symm
+    have h1 : 0 < ∑ i, (|u i| + u i) * T i j := by
+      apply Finset.sum_pos'
+      · intro i _
+        exact mul_nonneg (by have := neg_abs_le (u i); linarith) (le_of_lt (hpos i j))
+      · exact ⟨ip, Finset.mem_univ _, mul_pos (by have := abs_nonneg (u ip); linarith) (hpos ip j)⟩
+    have h2 : 0 < ∑ i, (|u i| - u i) * T i j := by
+      apply Finset.sum_pos'
+      · intro i _
+        exact mul_nonneg (by have := le_abs_self (u i); linarith) (le_of_lt (hpos i j))
+      · exact ⟨im, Finset.mem_univ _, mul_pos (by have := abs_nonneg (u im); linarith) (hpos im j)⟩
+    simp only [add_mul, sub_mul, Finset.sum_add_distrib, Finset.sum_sub_distrib] at h1 h2
+    rw [abs_lt]
+    constructor <;> linarith
+  have hlt : ∑ j, |u j| < ∑ j, ∑ i, |u i| * T i j :=
+    Finset.sum_lt_sum_of_nonempty ⟨ip, Finset.mem_univ _⟩ (fun j _ => strict j)
+  rw [Finset.sum_comm] at hlt
+  simp only [← Finset.mul_sum, hrow, mul_one] at hlt
+  exact lt_irrefl _ hlt
+
+theorem stationary_unique_pos {n : Nat} (T : Matrix (Fin n) (Fin n) ℝ) (hpos : ∀ i j, 0 < T i j)
+    (hrow : ∀ i, ∑ j, T i j = 1) (v w : Fin n → ℝ) (hv : Matrix.vecMul v T = v)
+    (hw : Matrix.vecMul w T = w) (sv : ∑ i, v i = 1) (sw : ∑ i, w i = 1) : v = w := by
+  have h := fixed_sum_zero_eq_zero T hpos hrow (v - w)
+    (by rw [Matrix.sub_vecMul, hv, hw])
+    (by simp only [Pi.sub_apply, Finset.sum_sub_distrib, sv, sw, sub_self])
+  exact sub_eq_zero.mp h
 
 end Ens.Msm
